@@ -248,7 +248,7 @@ def run(ck):
       if tally[k] == 0:
         raise core.MachineryError(f"vacuous case slice: no '{k}' case among {len(pairs)} runs")
   selftests(ck, pairs, verdicts)
-  ck.assume("inputs are Q diag(a) Q^T with eigenvalues 10^(c-e) (spread <= 1e8, scale 1e-6..1e6, n <= 16, "
+  ck.assume("inputs are Q diag(a) Q^T with eigenvalues 10^(c-e) (spread <= 1e8, scale 1e-9..1e6 (1e-9: below the 1e-6 floor and stop increment of the power iteration), n <= 16, "
             "p <= 8): C01 is decided on matrices with a prescribed spectrum, not on every PSD matrix")
   ck.assume("a float32 report r (error figure, max_eigen_value) stands for some real in r(1 -+ 2^-23); eigh "
             "does not report its estimate: lambda_hat in [lambda_max(1 - 1e-4), lambda_max] for lambda_max >= 1 "
